@@ -11,12 +11,18 @@ Tie: translator (T) + correspondence (C), exhaustive over the alias table.
   (C2) the model of the wrapper (`Model/Dispatch.lean`) against the real `deprecated` /
        `deprecated_parameters` decorators on generated class hierarchies (multiple inheritance,
        overrides, rebinding after the capture, static methods, keyword collisions);
+  (C3) the wrapper as a transformer of the process state (`Model/DeprecWorld.lean`) against the real decorators inside generated
+       user warning configurations (actions, categories, message patterns, repeated calls from one place, RAISE_EXCEPTION);
+  (C4) old names kept by hand (properties of BIOGEME, undecorated functions) found by their spelling on live receivers;
   (C1) for **every** alias slot of **every** class that exposes it (656 slots), on equivalent
        receivers and with arguments from per-signature generators: `old(*args)` against the function
        the *spelling* of the old name designates (never the function the wrapper happens to call):
        result, exception, receiver state afterwards, and exactly one added DeprecationWarning naming
-       that function; every obsolete keyword against its replacement.  The calls run in worker
-       processes that are retired as soon as the C++ engine has raised.
+       that function; every obsolete keyword against its replacement.  Around every call the observable state of the
+       process is read before and after (warning filters and registries, logging, random generators, module globals and
+       class attributes of the package, environment, files of the working directory, log records, printed text): the old
+       name must leave exactly what the new name leaves.  The calls run in worker processes that are retired as soon as
+       the C++ engine has raised.
 """
 
 from __future__ import annotations
@@ -83,14 +89,25 @@ def closure_cells(f):
 
 
 def find_deprecated_wrapper(f):
-    """the wrapper made by `deprecated` inside a chain of functools.wraps (or None)"""
+    """the wrapper made by `deprecated` inside a chain of functools.wraps (or (None, None)); returns (wrapper, {'new_func': captured}).
+    The wrapper is recognised by what the decorator leaves on it (`__deprecated__`, `__wrapped__` = the decorated stub) and the
+    captured replacement is the function-valued cell of its closure - whatever the closure variables are called, so that a
+    rewritten wrapper is still read (and then judged by the obligations and by the calls, not lost by the translator)."""
     for _ in range(10):
         if not isinstance(f, types.FunctionType):
             return None, None
         cells = closure_cells(f)
-        if 'new_func' in cells and 'old_func' in cells:
-            return f, cells
-        f = getattr(f, '__wrapped__', None)
+        stub = getattr(f, '__wrapped__', None)
+        if 'obsolete_params' not in cells and getattr(f, '__deprecated__', False):
+            if 'new_func' in cells and callable(cells['new_func']):
+                return f, {'new_func': cells['new_func']}
+            cands = [v for k, v in cells.items() if callable(v) and v is not stub and not inspect.isclass(v) and getattr(v, '__module__', '') != 'warnings']
+            named = [v for v in cands if getattr(v, '__name__', None) == getattr(f, '__newname__', None)]
+            if len(named) == 1:
+                return f, {'new_func': named[0]}
+            if len(cands) == 1:
+                return f, {'new_func': cands[0]}
+        f = stub
     return None, None
 
 
@@ -146,6 +163,13 @@ def ast_declarations(mods):
 
         visit(tree.body, '')
     return out
+
+
+class _Unknown:
+    """stands for a captured replacement the translator could not read"""
+
+    def __init__(self, name):
+        self.__name__ = name
 
 
 class Interner:
@@ -245,9 +269,13 @@ def gather():
     opaque = []
     for d in defs:
         if not d['cells'] or d['newname'] is None:
+            # still listed (with a captured function that is nowhere): the table obligations refuse it, its slots are still called
             opaque.append((d['owner'], d['old'], 'wrapper shape not recognised'))
-            continue
-        new_func = d['cells']['new_func']
+            d['newname'] = d['newname'] or '?'
+            name_id(d['newname'])
+            new_func = _Unknown(d['newname'])
+        else:
+            new_func = d['cells']['new_func']
         owner_cid = class_id(('module:' if d['kind'] == 'module' else '') + d['owner'])
         a = {
             'owner': owner_cid, 'owner_name': d['owner'], 'kind': d['kind'], 'old': d['old'], 'new': d['newname'],
@@ -463,27 +491,48 @@ from lib.core import Result  # noqa: E402
 READY = True
 MANIFEST = dict(
     text='Proof (Lean 4): for ALL class hierarchies the repaired wrapper of deprecated.py runs exactly what receiver.new_name(...) runs whenever the captured '
-    'function is found in the receiver mro, including subclasses overriding the replacement (C20.dynamic_sound, subclass_override_honoured); exact conditions '
-    'for the repaired and for the old captured-call semantics (wrapper_sound_iff, captured_sound_iff, captured_differs_iff_overridden, '
-    'repaired_agrees_when_not_overridden); the keyword wrapper hands the callee the arguments written under the current names with one warning per obsolete '
-    'spelling (rename_old_equals_new, rename_new_is_identity, rename_ignored); lifting lemma table_sound. Translator: lean/Generated/Aliases.lean is rewritten '
-    'on every run from the live package (146 classes, 120 alias definitions, 656 slots, 19 keyword maps) with decide +kernel obligations (aliases_ok, '
-    'known_bad_are_bad, legacy_ok, kw_ok, slot_count) and the instantiated theorem every_slot_sound. Correspondence: exhaustive over the table (every slot '
-    'of every class that exposes it, equivalent receivers, per-signature arguments; result, exception, receiver state, exactly one DeprecationWarning naming '
-    'the function the spelling designates) and the wrapper model against the real decorators on generated hierarchies.',
+    'function is found in the receiver mro, including subclasses overriding the replacement at ANY depth - intermediate class, leaf, several of them '
+    '(C20.dynamic_sound, subclass_override_honoured, override_anywhere_honoured; a wrapper looking only at the receiver\'s own class is refuted on a concrete '
+    'three-level hierarchy: shallow_lookup_is_wrong_on_inherited_override); exact conditions for the repaired and for the old captured-call semantics '
+    '(wrapper_sound_iff, captured_sound_iff, captured_differs_iff_overridden, repaired_agrees_when_not_overridden). Round 3 - the wrapper as a transformer of '
+    'the process state (Model/DeprecWorld.lean: warning filters, default action, registries, delivered warnings, ALL remaining state; RAISE_EXCEPTION branch; '
+    'any behaviour of the function objects): calling the old name = emitting the warning, then exactly the call of the new name (alias_is_warning_then_new); '
+    'warnings.warn leaves filters, default action and the rest untouched and delivers at most that one warning (warn_touches_only_the_warning_log); a user\'s '
+    'ignore / error setting is obeyed (warn_ignored, warn_error, alias_under_ignore_is_new, alias_under_error_raises, alias_raise_switch); a helper forcing '
+    'the display is observable (forced_display_is_observable). The keyword wrapper hands the callee the arguments written under the current names with one '
+    'warning per obsolete spelling (rename_old_equals_new, rename_new_is_identity, rename_ignored) in an otherwise unchanged process '
+    '(warnMany_touches_only_the_warning_log, kw_is_warnings_then_call, kw_current_names_silent); lifting lemma table_sound. Translator: '
+    'lean/Generated/Aliases.lean is rewritten on every run from the live package (146 classes, 120 alias definitions, 656 slots, 19 keyword maps) with '
+    'decide +kernel obligations (aliases_ok, known_bad_are_bad, legacy_ok, kw_ok, kw_legacy_ok, slot_count) and the instantiated theorem every_slot_sound; '
+    'the wrapper is recognised by the marks the decorator leaves, not by the names of its closure variables. Correspondence: exhaustive over the table (every '
+    'slot of every class that exposes it, equivalent receivers, per-signature arguments; result, exception, receiver state and attribute names, arguments '
+    'afterwards, exactly one DeprecationWarning naming the function the spelling designates, log records, printed text, files of the working directory and the '
+    'process-wide state before/after - warnings.filters and registries, logging configuration, numpy/python random generators, numpy/pandas settings, '
+    'environment, globals and class attributes of every biogeme module; a third of the slots called a second time on the same receiver); old names kept by '
+    'hand (BIOGEME.numberOfThreads/numberOfDraws/generatePickle/freeBetaNames/loglike properties, any undecorated function) found by their spelling on live '
+    'receivers, read and written against their replacement; the wrapper model against the real decorators on structured hierarchies (all chains of depth 3-5 '
+    'with every subset of levels redefining the replacement, every level as receiver; diamonds) and random ones; the state-transformer model against the '
+    'real wrappers inside generated user warning configurations (6 actions, categories, message patterns, repeated calls from one place, RAISE_EXCEPTION).',
     design='DESIGN.md §5 C20',
-    technique='Lean 4 theorems over a dispatch model + table regenerated from the live package with kernel-checked obligations + exhaustive differential calls',
+    technique='Lean 4 theorems over a dispatch model and a process-state model + table regenerated from the live package with kernel-checked obligations + '
+    'exhaustive differential calls with before/after snapshots of the observable process state',
     note='One slot is a listed known finding (FC20a: Database.descriptionOfNativeDraws cannot be called on an instance). Abstract classes and '
-    'DefineVariable (constructor always raises) have no instance: their slots are covered by the table obligations and by their concrete subclasses.',
+    'DefineVariable (constructor always raises) have no instance: their slots are covered by the table obligations and by their concrete subclasses. '
+    'BIOGEME.loglike emits no warning: only reading is compared. The attribution of the warning (stacklevel) is not part of the property and not checked.',
 )
 TRUSTED = [
     'the translator (inspect/ast based) reports the package faithfully; it is cross-checked dynamically: every slot it lists is also called',
     'CPython attribute lookup on types = first class of __mro__ defining the name (resolve in the model); instance-level shadowing is the same expression on both sides',
-    'canonicalisation of results (str() of expressions, masked object addresses and timestamps)',
+    'CPython warnings.warn = action of the first matching entry of warnings.filters, else defaultaction; default/module/once consult a registry (warn in '
+    'Model/DeprecWorld.lean; compared with the real module on generated configurations)',
+    'canonicalisation of results (str() of expressions, masked object addresses, timestamps and progress bars); the process-state snapshot lists what it reads '
+    '(global_state in harness/props/c20.py): state outside it (C++ engine internals, other packages\' globals) is not observed',
 ]
-ASSUMPTIONS = ['the replacement of an alias is designated by the spelling of the old name (normalisation: drop "_", lower case) or by the reviewed exception list']
-RULE = ('every (class, alias) slot of the generated table x 1-4 argument tuples from the signature of the replacement; every obsolete keyword; generated class '
-        'hierarchies for the wrapper model; non-trivial = slot whose class differs from the defining class, or call with arguments, or hierarchy with an override')
+ASSUMPTIONS = ['the replacement of an alias is designated by the spelling of the old name (normalisation: drop "_", lower case) or by the reviewed exception list',
+               'an old name without any warning (BIOGEME.loglike) has no "replacement named in its deprecation warning": only reading it is compared']
+RULE = ('every (class, alias) slot of the generated table x 1-4 argument tuples from the signature of the replacement; every obsolete keyword; every old name '
+        'kept by hand; generated class hierarchies (structured chains/diamonds + random) and generated warning configurations for the wrapper models; '
+        'non-trivial = slot whose class differs from the defining class, or call with arguments, or hierarchy with an override, or non-empty filter list')
 
 W_STATIC = 'Database.descriptionOfNativeDraws: method alias without self pointing to a module function'
 MATCHERS = {'native_draws_slot': lambda case: isinstance(case, dict) and case.get('old') == 'descriptionOfNativeDraws'}
@@ -580,6 +629,7 @@ ADDR = re.compile(r' at 0x[0-9a-fA-F]+')
 BIGNUM = re.compile(r'\b\d{9,}\b')
 STAMP = re.compile(r'\d{4}-\d{2}-\d{2} \d{2}:\d{2}:\d{2}(\.\d+)?')
 CLOCK = re.compile(r'\b\d{1,2}:\d{2}:\d{2}(\.\d+)?\b')
+DIGITS = re.compile(r'\d+')
 
 
 def mask_text(s: str) -> str:
@@ -695,6 +745,144 @@ def state_of(recv):
     return canon(recv)
 
 
+# --------------------------------------------------------------------------- state of the process around a call
+
+
+def _fp(v):
+    """cheap fingerprint of a module / class attribute: value of plain data, identity of anything else"""
+    if v is None or isinstance(v, (bool, int, float, str, bytes)):
+        return repr(v)[:60]
+    if isinstance(v, (list, tuple, set, frozenset)) and len(v) <= 12:
+        return type(v).__name__ + '[' + ','.join(_fp(x) if (x is None or isinstance(x, (bool, int, float, str))) else f'@{id(x)}' for x in v) + ']'
+    if isinstance(v, dict):
+        if len(v) <= 12:
+            return 'dict{' + ','.join(f'{k!r}:' + (_fp(x) if (x is None or isinstance(x, (bool, int, float, str))) else f'@{id(x)}') for k, x in v.items()) + '}'
+        return f'dict#{len(v)}@{id(v)}'
+    if isinstance(v, (list, tuple, set, frozenset)):
+        return f'{type(v).__name__}#{len(v)}@{id(v)}'
+    return f'@{id(v)}'
+
+
+_IDS = re.compile(r'@\d+')
+
+
+_BIO_MODS = [-1, []]
+_MOD_CACHE = {}
+
+
+def global_state(light=False):
+    """everything process-wide that a call of an old name could leave changed (the receiver and the arguments are observed
+    separately): configuration of the warnings module, logging configuration, random generators, numpy / pandas settings,
+    environment, working directory and its files, globals and class attributes of every biogeme module"""
+    import hashlib
+    import logging
+    import warnings as w
+
+    import numpy as np
+
+    g = {}
+    g['warnings.filters'] = json.dumps([[a, getattr(m, 'pattern', m), getattr(c, '__name__', str(c)), getattr(mod, 'pattern', mod), ln]
+                                        for a, m, c, mod, ln in w.filters])
+    g['warnings.defaultaction'] = w.defaultaction
+    g['warnings.onceregistry'] = json.dumps(sorted(str(k[0])[:60] for k in w.onceregistry))
+    g['warnings.showwarning'] = getattr(w.showwarning, '__qualname__', str(type(w.showwarning)))
+    g['warnings.formatwarning'] = getattr(w.formatwarning, '__qualname__', str(type(w.formatwarning)))
+    g['logging.disable'] = logging.root.manager.disable
+    for name, lg in [('root', logging.root)] + sorted(logging.root.manager.loggerDict.items()):
+        if isinstance(lg, logging.Logger):
+            g['logger:' + name] = json.dumps([lg.level, lg.propagate, lg.disabled, [type(h).__name__ + ':' + str(h.level) for h in lg.handlers],
+                                              len(lg.filters)])
+    st = np.random.get_state()
+    g['numpy.random'] = hashlib.md5(st[1].tobytes()).hexdigest()[:12] + ':' + str(st[2:])
+    g['random'] = hashlib.md5(repr(random.getstate()).encode()).hexdigest()[:12]
+    g['numpy.seterr'] = json.dumps(np.geterr(), sort_keys=True)
+    g['numpy.printoptions'] = json.dumps(np.get_printoptions(), sort_keys=True, default=str)
+    raw_env = getattr(os.environ, '_data', None)
+    g['environ'] = hash(frozenset(raw_env.items())) & 0xffffffff if raw_env is not None else hashlib.md5(repr(sorted(os.environ.items())).encode()).hexdigest()[:12]
+    g['cwd'] = os.getcwd()
+    g['sys.path'] = hashlib.md5(repr(sys.path).encode()).hexdigest()[:12]
+    g['recursionlimit'] = sys.getrecursionlimit()
+    g['excepthook'] = getattr(sys.excepthook, '__qualname__', '?')
+    if light:
+        return g
+    try:
+        import pandas as pd
+
+        g['pandas.options'] = json.dumps({k: pd.get_option(k) for k in ('display.max_rows', 'display.max_columns', 'display.width', 'mode.chained_assignment',
+                                                                        'display.precision')}, default=str)
+    except Exception:  # noqa: BLE001
+        pass
+    if _BIO_MODS[0] != len(sys.modules):
+        _BIO_MODS[0] = len(sys.modules)
+        _BIO_MODS[1] = [(mname, m) for mname, m in list(sys.modules.items()) if m is not None and (mname == 'biogeme' or mname.startswith('biogeme.'))]
+    for mname, m in _BIO_MODS[1]:
+        d = vars(m)
+        h = (len(d), hash(tuple(d)), hash(tuple(map(id, d.values()))))
+        c = _MOD_CACHE.get(mname)
+        if c is None or c[0] != h:
+            # names and identities of the module's globals changed since the last look: read them again
+            plain, live = {}, []
+            for k, v in list(d.items()):
+                if k == '__warningregistry__':
+                    live.append(k)
+                elif k.startswith('__') or isinstance(v, types.ModuleType):
+                    continue
+                elif isinstance(v, type):
+                    plain[f'{mname}.{k}'] = f'@{id(v)}'
+                    if v.__module__ == mname:
+                        live.append(k)
+                elif isinstance(v, (list, dict, set)):
+                    live.append(k)  # mutable in place: looked at every time
+                elif isinstance(v, types.FunctionType):
+                    plain[f'{mname}.{k}'] = f'@{id(v)}'
+                else:
+                    plain[f'{mname}.{k}'] = _fp(v)
+            c = _MOD_CACHE[mname] = (h, plain, live)
+        g.update(c[1])
+        for k in c[2]:
+            v = d.get(k)
+            if k == '__warningregistry__':
+                g[f'{mname}.__warningregistry__'] = json.dumps(sorted(str(x[0])[:60] for x in (v or {}) if isinstance(x, tuple)))
+            elif isinstance(v, type):
+                # attributes of the class: names and identities of the values (a rebound method, a counter, a new attribute)
+                cd = vars(v)
+                g[f'{mname}.{k}.__dict__'] = f'{len(cd)} attributes #{hash(tuple(cd)) & 0xffff}/{hash(tuple(map(id, cd.values()))) & 0xffffffff}'
+            else:
+                g[f'{mname}.{k}'] = _fp(v)
+    return g
+
+
+def state_delta(before, after):
+    """what changed: [key, before, after] (object identities are masked: only the fact that an object was replaced is kept)"""
+    out = []
+    for k in sorted(set(before) | set(after)):
+        if before.get(k) != after.get(k):
+            if k in ('numpy.random', 'random'):
+                out.append([k, 'advanced to', after.get(k)])  # the seed is set before every call: the final state says how much was consumed
+            else:
+                out.append([k, _IDS.sub('@obj', str(before.get(k))), _IDS.sub('@obj', str(after.get(k)))])
+    return out
+
+
+def files_here():
+    """files of the working directory (each call runs in its own scratch directory): name and masked text"""
+    import hashlib
+
+    out = []
+    for p in sorted(os.listdir('.')):
+        if os.path.isfile(p):
+            if p.endswith('.pickle'):
+                out.append([BIGNUM.sub('#', p), 'binary'])
+                continue
+            try:
+                out.append([p, hashlib.md5(mask_text(Path(p).read_text(errors='replace')).encode()).hexdigest()[:12]])
+            except OSError:
+                out.append([p, 'unreadable'])
+        else:
+            out.append([p + '/', len(os.listdir(p))])
+    return out
+
+
 # --------------------------------------------------------------------------- fixtures
 
 TOML = core.TOML_MINIMAL + '''[SimpleBounds]
@@ -798,6 +986,23 @@ class Env:
             Env._raw = pickle.dumps(r.data)
         return res.bioResults(the_raw_results=pickle.loads(Env._raw))
 
+    _raw_boot = None
+
+    def results_bootstrap(self):
+        """results of an estimation with (3) bootstrap samples: the branches of the replacements that read the bootstrap data"""
+        import biogeme.results as res
+
+        if Env._raw_boot is None:
+            with core.scratch(TOML + 'bootstrap_samples = 3\n'):
+                import numpy as np
+
+                np.random.seed(11)
+                B = self.biogeme('c20boot')
+                B.save_iterations = False
+                r = B.estimate(run_bootstrap=True)
+                Env._raw_boot = pickle.dumps(r.data)
+        return res.bioResults(the_raw_results=pickle.loads(Env._raw_boot))
+
 
 def receivers():
     """class qualname -> list of (label, factory(env)); every factory returns a fresh equivalent instance"""
@@ -875,6 +1080,7 @@ def receivers():
     add('biogeme.expressions.idmanager.IdManager', 'idm', lambda e: e.ex.IdManager([e.b1() * e.X()], e.db, 0))
     add('biogeme.biogeme.BIOGEME', 'logit', lambda e: e.biogeme())
     add('biogeme.results.bioResults', 'estimated', lambda e: e.results())
+    add('biogeme.results.bioResults', 'bootstrapped', lambda e: e.results_bootstrap())
     return R
 
 
@@ -907,6 +1113,11 @@ def fo(fields):
         return out
 
     return post
+
+
+# extra receivers used, in the first pass, only for the replacements that read what they add (all of them in the second pass of the thorough tier)
+RECEIVER_FOR = {'bootstrapped': {'get_bootstrap_var_covar', 'get_betas_for_sensitivity_analysis', 'get_estimated_parameters', 'get_general_statistics',
+                                 'print_general_statistics', 'get_html', 'get_latex', 'get_f12', 'short_summary', 'get_var_covar', 'get_robust_var_covar'}}
 
 
 def is_expression_class(q):
@@ -1147,6 +1358,12 @@ def expected_new(T, cls_entry, alias):
     return None, cands
 
 
+def _printed(text):
+    """text written on a stream: progress bars (redrawn at a pace that depends on the clock) are left out, numbers are masked"""
+    lines = [l for l in re.split(r'[\r\n]+', text) if l.strip() and not re.search(r'\d+%\|', l) and 'it/s' not in l]
+    return DIGITS.sub('#', mask_text('\n'.join(lines)))[-400:]
+
+
 def one_call(fn, args, kwargs, recv, post, env, seed):
     """outcome of one call: result / exception, receiver state, warnings"""
     import numpy as np
@@ -1155,18 +1372,53 @@ def one_call(fn, args, kwargs, recv, post, env, seed):
     np.random.seed(seed)
     random.seed(seed)
     out = {}
+    import logging
+
+    records = []
+
+    class _Collect(logging.Handler):
+        def emit(self, record):
+            try:
+                records.append([record.name, record.levelname, DIGITS.sub('#', mask_text(record.getMessage()))[:120]])
+            except Exception as e:  # noqa: BLE001
+                records.append([record.name, record.levelname, 'message raises ' + type(e).__name__])
+
+    collect = _Collect(level=logging.INFO)
     with w.catch_warnings(record=True) as rec:
         w.simplefilter('always')
-        buf = io.StringIO()
+        buf, ebuf = io.StringIO(), io.StringIO()
+        # what the call writes to the log (the worker silences logging; it is listened to during the call, identically on both sides)
+        was_disabled, root_level = logging.root.manager.disable, logging.root.level
+        logging.disable(logging.NOTSET)
+        logging.root.setLevel(logging.INFO)
+        logging.root.addHandler(collect)
         try:
-            with contextlib.redirect_stdout(buf):
-                res = fn(*args, **kwargs)
-                if post is not None:
-                    res = post(res, recv, env)
-            out['result'] = canon(res)
-        except Exception as e:  # noqa: BLE001
-            out['exc'] = core.exc_kind(e)
-            out['exc_text'] = mask_text(str(e))[:160]
+            g0 = global_state()
+            try:
+                with contextlib.redirect_stdout(buf), contextlib.redirect_stderr(ebuf):
+                    res = fn(*args, **kwargs)
+                    g1 = global_state()  # before the post-processing of the result (which may itself use the library)
+                    n_rec = len(records)
+                    if post is not None:
+                        res = post(res, recv, env)
+                out['result'] = canon(res)
+            except Exception as e:  # noqa: BLE001
+                out['exc'] = core.exc_kind(e)
+                out['exc_text'] = mask_text(str(e))[:160]
+                g1 = global_state()
+                n_rec = len(records)
+        finally:
+            logging.root.removeHandler(collect)
+            logging.root.setLevel(root_level)
+            logging.disable(was_disabled)
+        out['log'] = records[:n_rec]
+        out['printed'] = [_printed(buf.getvalue()), _printed(ebuf.getvalue())]
+        # read inside the block: `catch_warnings` puts the filters back on exit and would hide a change made by the call
+        out['globals'] = state_delta(g0, g1)
+    try:
+        out['files'] = files_here()
+    except OSError as e:
+        out['files'] = 'listing raises ' + type(e).__name__
     out['dep'] = [str(x.message) for x in rec if issubclass(x.category, DeprecationWarning)]
     out['other_warnings'] = sorted(mask_text(str(x.message))[:80] for x in rec if not issubclass(x.category, DeprecationWarning))
     try:
@@ -1174,6 +1426,8 @@ def one_call(fn, args, kwargs, recv, post, env, seed):
     except Exception as e:  # noqa: BLE001
         out['state'] = 'state raises ' + type(e).__name__
     out['args_after'] = digest(canon([args, kwargs]))
+    d = getattr(recv, '__dict__', None)
+    out['attrs'] = sorted(d) if isinstance(d, dict) else None  # names only: an attribute planted on the receiver by the old name
     return out
 
 
@@ -1200,6 +1454,9 @@ def compare(old, new, old_name, want_new):
         diffs.append(('receiver state', old['state'], new['state']))
     if old['args_after'] != new['args_after']:
         diffs.append(('arguments after the call', old['args_after'], new['args_after']))
+    if old.get('attrs') != new.get('attrs'):
+        diffs.append(('attributes of the receiver after the call', sorted(set(old.get('attrs') or []) - set(new.get('attrs') or [])),
+                      sorted(set(new.get('attrs') or []) - set(old.get('attrs') or []))))
     added = list(old['dep'])
     for m in new['dep']:
         if m in added:
@@ -1208,7 +1465,30 @@ def compare(old, new, old_name, want_new):
         diffs.append(('warnings added by the old name', added, [msg]))
     if old['other_warnings'] != new['other_warnings']:
         diffs.append(('other warnings', old['other_warnings'], new['other_warnings']))
+    if ('second' in old or 'second' in new):
+        o2, n2 = dict(old.get('second') or {}), dict(new.get('second') or {})
+        if o2.pop('n_dep', 0) - n2.pop('n_dep', 0) != 1 and 'exc' not in o2 and 'exc' not in n2:
+            diffs.append(('second call on the same receiver: warnings added by the old name', 'not exactly one', [msg]))
+        if o2 != n2:
+            diffs.append(('second call on the same receiver', {k: v for k, v in o2.items() if n2.get(k) != v}, {k: v for k, v in n2.items() if o2.get(k) != v}))
+    if old.get('log') != new.get('log'):
+        diffs.append(('records written to the log', [x for x in old.get('log') or [] if x not in (new.get('log') or [])][:4],
+                      [x for x in new.get('log') or [] if x not in (old.get('log') or [])][:4]))
+    if old.get('printed') != new.get('printed'):
+        diffs.append(('text printed on stdout / stderr', old.get('printed'), new.get('printed')))
+    if old.get('globals') != new.get('globals'):
+        diffs.append((GLOBAL_DIFF, [x for x in old.get('globals') or [] if x not in (new.get('globals') or [])],
+                      [x for x in new.get('globals') or [] if x not in (old.get('globals') or [])]))
+    if old.get('files') != new.get('files'):
+        diffs.append((FILES_DIFF, old.get('files'), new.get('files')))
     return diffs
+
+
+FILES_DIFF = 'files left in the working directory'
+GLOBAL_DIFF = 'process-wide state left changed (warning filters / logging / random generators / module globals / environment)'
+
+
+VOLATILE_DIFFS = (GLOBAL_DIFF, FILES_DIFF)
 
 
 def slot_list(T):
@@ -1223,7 +1503,7 @@ def slot_list(T):
     return out
 
 
-def run_slot_call(T_by, R, s, recv_label, spec, seed, mark=None, sides=('old', 'new')):
+def run_slot_call(T_by, R, s, recv_label, spec, seed, mark=None, sides=('old', 'new'), twice=False):
     """one (slot, receiver, argument spec): outcomes of the old name and of the designated replacement"""
     label, builder, post, variant = spec
     cls_entry = T_by[s['cls']]
@@ -1259,6 +1539,20 @@ def run_slot_call(T_by, R, s, recv_label, spec, seed, mark=None, sides=('old', '
             if 'exc' in outs[side] and not engine_alive():
                 outs[side]['poisoned'] = True
                 return outs
+            if twice and not s['is_module'] and 'exc' not in outs[side]:
+                # the same name once more on the SAME receiver (fresh arguments): whatever an old name keeps from its first call shows here
+                try:
+                    args2, kwargs2 = builder(env, recv)
+                    target2 = getattr(recv, s['old']) if side == 'old' else (getattr(recv, s['want']) if s['want_kind'] == 'attr' else target)
+                except Exception as e:  # noqa: BLE001
+                    outs[side]['second'] = {'exc': 'setup ' + core.exc_kind(e)}
+                    continue
+                o2 = one_call(target2, args2, kwargs2, recv, post, env, seed + 1)
+                outs[side]['second'] = {k: o2.get(k) for k in ('result', 'exc', 'state', 'globals', 'log') if k in o2}
+                outs[side]['second']['n_dep'] = len(o2['dep'])
+                if 'exc' in o2 and not engine_alive():
+                    outs[side]['poisoned'] = True
+                    return outs
     return outs
 
 
@@ -1303,10 +1597,15 @@ def worker(payload):
             if not specs:
                 entry['skipped'] = 'NO ARGUMENT SPEC'
             for ri, rl in enumerate(s['receivers']):
+                if rl in RECEIVER_FOR and s['want'] not in RECEIVER_FOR[rl] and not payload.get('twice_all') and ri > 0:
+                    continue  # an extra receiver kept (first pass) for the replacements whose branches it opens
                 for si, spec in enumerate(specs):
                     if skip_to and (i, ri, si) < skip_to:
                         continue
-                    outs = run_slot_call(T_by, R, s, rl, spec, payload['seed'] + si, mark=lambda side: emit({'about': [i, ri, si, side]}))
+                    twice = bool(payload.get('twice_all')) or (i + payload['seed']) % 3 == 0
+                    outs = run_slot_call(T_by, R, s, rl, spec, payload['seed'] + si, mark=lambda side: emit({'about': [i, ri, si, side]}), twice=twice)
+                    if twice and all('second' in o for o in outs.values()):
+                        entry['second_calls'] = entry.get('second_calls', 0) + 1
                     if any(o.get('poisoned') for o in outs.values()):
                         emit({'entry': entry})
                         emit({'poisoned_at': [i, ri, si]})
@@ -1319,6 +1618,18 @@ def worker(payload):
                     if 'exc' in outs['old'] and 'exc' in outs['new']:
                         entry['both_raise'] += 1
                     d = compare(outs['old'], outs['new'], s['old'], s['want'])
+                    if d and any(x[0] in VOLATILE_DIFFS for x in d):
+                        # process-wide state / files: a difference counts only if it is there again when the pair is repeated
+                        # (a cache filled by whichever side happens to run first in this interpreter is not a difference)
+                        entry['repeated'] = entry.get('repeated', 0) + 1
+                        entry['repeated_for'] = _short([x[1:] for x in d if x[0] in VOLATILE_DIFFS])
+                        again = run_slot_call(T_by, R, s, rl, spec, payload['seed'] + si, mark=lambda side: emit({'about': [i, ri, si, side]}), twice=twice)
+                        if any(o.get('poisoned') for o in again.values()):
+                            emit({'entry': entry})
+                            emit({'poisoned_at': [i, ri, si]})
+                            return {'done': False}
+                        keep = {x[0] for x in compare(again['old'], again['new'], s['old'], s['want'])} if len(again) == 2 else set()
+                        d = [x for x in d if x[0] not in VOLATILE_DIFFS or x[0] in keep]
                     if d:
                         entry['mismatch'].append({'receiver': rl, 'spec': spec[0], 'diffs': [[k, _short(a), _short(b)] for k, a, b in d]})
         emit({'entry': entry})
@@ -1351,6 +1662,147 @@ def isolated_single(payload):
 def _short(v):
     t = json.dumps(v, default=str)
     return t if len(t) < 400 else t[:400] + '…'
+
+
+# --------------------------------------------------------------------------- old names kept by hand (properties, undecorated functions)
+
+
+def spelled_pairs(obj):
+    """(old, new) pairs of public attribute names of an object that are respellings of each other (same letters after dropping
+    '_' and lower-casing): the old one is the one with fewer '_' (camelCase / run-together)"""
+    groups = {}
+    for n in dir(obj):
+        if not n.startswith('_'):
+            groups.setdefault(norm_name(n), []).append(n)
+    out = []
+    for g in groups.values():
+        if len(g) == 2:
+            a, b = sorted(g, key=lambda n: (n.count('_'), not any(ch.isupper() for ch in n)))
+            if a.count('_') < b.count('_') or (any(ch.isupper() for ch in a) and not any(ch.isupper() for ch in b)):
+                out.append((a, b))
+    return sorted(out)
+
+
+def compare_handwritten(old, new, old_name, want):
+    """an old name kept by hand: same result / exception / receiver state / process state / files, and what it adds to the warnings and
+    to the log is at most ONE message, which names the replacement"""
+    diffs = []
+    if 'exc' in old or 'exc' in new:
+        if old.get('exc') != new.get('exc'):
+            diffs.append(('exception', old.get('exc', 'returns') + ': ' + old.get('exc_text', ''), new.get('exc', 'returns') + ': ' + new.get('exc_text', '')))
+    elif old['result'] != new['result']:
+        diffs.append(('result', old['result'], new['result']))
+    if old['state'] != new['state']:
+        diffs.append(('receiver state', old['state'], new['state']))
+    if old.get('attrs') != new.get('attrs'):
+        diffs.append(('attributes of the receiver after the call', sorted(set(old.get('attrs') or []) - set(new.get('attrs') or [])),
+                      sorted(set(new.get('attrs') or []) - set(old.get('attrs') or []))))
+    added = list(old['dep']) + [r[2] for r in old.get('log') or []]
+    for m in list(new['dep']) + [r[2] for r in new.get('log') or []]:
+        if m in added:
+            added.remove(m)
+    if len(added) > 1 or any(want not in m for m in added):
+        diffs.append(('messages added by the old name (warnings + log)', added, f'at most one, naming {want}'))
+    if old.get('printed') != new.get('printed'):
+        diffs.append(('text printed on stdout / stderr', old.get('printed'), new.get('printed')))
+    if old.get('globals') != new.get('globals'):
+        diffs.append((GLOBAL_DIFF, [x for x in old.get('globals') or [] if x not in (new.get('globals') or [])],
+                      [x for x in new.get('globals') or [] if x not in (old.get('globals') or [])]))
+    if old.get('files') != new.get('files'):
+        diffs.append((FILES_DIFF, old.get('files'), new.get('files')))
+    return diffs
+
+
+def handwritten_worker(payload):
+    """every receiver class: the old names that are NOT made by the decorator (properties such as BIOGEME.numberOfThreads, functions
+    written by hand) - read and, for properties, written, against the replacement their spelling designates"""
+    import warnings as w
+
+    w.simplefilter('ignore')
+    import logging
+
+    logging.disable(logging.CRITICAL)
+    R = receivers()
+    out = []
+    for q, label, fac in [(q, label, fac) for q, facs in sorted(R.items()) for label, fac in facs]:
+        with core.scratch(TOML):
+            try:
+                probe = fac(Env())
+                pairs = spelled_pairs(probe)
+            except Exception:  # noqa: BLE001
+                continue
+        for old, new in pairs:
+            try:
+                static = inspect.getattr_static(type(probe), old)
+            except AttributeError:
+                static = None
+            f = raw_function(static)
+            if getattr(f, '__deprecated__', False):
+                continue  # made by the decorator: a slot of the table
+            kind = 'property' if isinstance(static, property) else 'function' if isinstance(f, types.FunctionType) else None
+            if kind is None:
+                continue
+            entry = {'class': q, 'old': old, 'new': new, 'kind': kind, 'receiver': label, 'diffs': [], 'calls': 0}
+
+            def observe(action, name, value=None):
+                with core.scratch(TOML):
+                    env = Env()
+                    recv = fac(env)
+                    if action == 'get':
+                        return one_call(lambda: getattr(recv, name), (), {}, recv, None, env, payload['seed'])
+                    if action == 'set':
+                        return one_call(lambda: setattr(recv, name, value), (), {}, recv, lambda res, r, e: getattr(r, new), env, payload['seed'])
+                    specs = arg_specs(q, new, False)
+                    if not specs:
+                        return None
+                    _, builder, post, _v = specs[0]
+                    args, kwargs = builder(env, recv)
+                    return one_call(getattr(recv, name), args, kwargs, recv, post, env, payload['seed'])
+
+            def judge(what, o_old, o_new):
+                entry['calls'] += 1
+                d = compare_handwritten(o_old, o_new, old, new)
+                if d and any(x[0] in VOLATILE_DIFFS for x in d):
+                    return 'again', d
+                return 'done', d
+
+            steps = [('get', None)] if kind == 'property' else [('call', None)]
+            if kind == 'property':
+                with core.scratch(TOML), w.catch_warnings():
+                    w.simplefilter('ignore')
+                    try:
+                        cur = getattr(fac(Env()), new)
+                    except Exception:  # noqa: BLE001
+                        cur = None
+                if isinstance(cur, bool):
+                    steps.append(('set', not cur))
+                elif isinstance(cur, int):
+                    steps.append(('set', cur + 1))
+                elif isinstance(cur, float):
+                    steps.append(('set', cur + 0.5))
+                elif isinstance(cur, str):
+                    steps.append(('set', cur + 'x'))
+                else:
+                    steps.append(('set', [1, 2]))
+            for action, value in steps:
+                o_old, o_new = observe(action, old, value), observe(action, new, value)
+                if o_old is None or o_new is None:
+                    entry['uncovered'] = 'no argument spec for ' + new
+                    continue
+                if action == 'get' and not (o_old['dep'] or o_old.get('log')):
+                    # a compatibility name that says nothing (BIOGEME.loglike): it has no deprecation warning, hence no replacement
+                    # "named in its deprecation warning" - outside the property beyond what it offers, reading
+                    entry['silent'] = True
+                if action == 'set' and entry.get('silent'):
+                    continue
+                st, d = judge(action, o_old, o_new)
+                if st == 'again':
+                    keep = {x[0] for x in compare_handwritten(observe(action, old, value), observe(action, new, value), old, new)}
+                    d = [x for x in d if x[0] not in VOLATILE_DIFFS or x[0] in keep]
+                for k, a, b in d:
+                    entry['diffs'].append([action + ': ' + k, _short(a), _short(b)])
+            out.append(entry)
+    return {'results': out, 'engine_alive': engine_alive()}
 
 
 # --------------------------------------------------------------------------- obsolete keywords (deprecated_parameters)
@@ -1445,35 +1897,43 @@ def kw_worker(payload):
             if u is None:
                 out.append(entry)
                 continue
-            outs = {}
-            for side in ('old', 'new'):
-                with core.scratch(TOML + 'bootstrap_samples = 3\n' if func == 'estimate' else TOML):
-                    env = Env()
-                    if owner.startswith('biogeme.draws'):
-                        recv, target = None, getattr(sys.modules[owner], func)
-                    elif recv_b == 'class':
-                        recv = None
-                        mod, cls = owner.rsplit('.', 1)
-                        target = getattr(sys.modules[mod], cls)
-                    else:
-                        recv = recv_b(env)
-                        target = getattr(recv, func)
-                    args, kwargs = base_b(env, recv)
-                    kwargs = dict(kwargs)
-                    for o in olds:
-                        v = olds[o](env)
-                        new = expected_keyword(u, o)
-                        if o not in combo:
-                            # the other keywords of the function are given under their current names on both sides
-                            if new is not None and func != '__init__':
+            def pair():
+                outs = {}
+                for side in ('old', 'new'):
+                    with core.scratch(TOML + 'bootstrap_samples = 3\n' if func == 'estimate' else TOML):
+                        env = Env()
+                        if owner.startswith('biogeme.draws'):
+                            recv, target = None, getattr(sys.modules[owner], func)
+                        elif recv_b == 'class':
+                            recv = None
+                            mod, cls = owner.rsplit('.', 1)
+                            target = getattr(sys.modules[mod], cls)
+                        else:
+                            recv = recv_b(env)
+                            target = getattr(recv, func)
+                        args, kwargs = base_b(env, recv)
+                        kwargs = dict(kwargs)
+                        for o in olds:
+                            v = olds[o](env)
+                            new = expected_keyword(u, o)
+                            if o not in combo:
+                                # the other keywords of the function are given under their current names on both sides
+                                if new is not None and func != '__init__':
+                                    kwargs[new] = v
+                            elif side == 'old':
+                                kwargs[o] = v
+                            elif new is not None:
                                 kwargs[new] = v
-                        elif side == 'old':
-                            kwargs[o] = v
-                        elif new is not None:
-                            kwargs[new] = v
-                    outs[side] = one_call(target, args, kwargs, recv, post, env, payload['seed'])
-                    if 'exc' in outs[side] and not engine_alive():
-                        return {'results': out, 'poisoned_at': idx, 'poisoned_side': side, 'outs': outs}
+                        outs[side] = one_call(target, args, kwargs, recv, post, env, payload['seed'])
+                        if 'exc' in outs[side] and not engine_alive():
+                            outs['poisoned_side'] = side
+                            return outs
+                return outs
+
+            outs = pair()
+            if 'poisoned_side' in outs:
+                side = outs.pop('poisoned_side')
+                return {'results': out, 'poisoned_at': idx, 'poisoned_side': side, 'outs': outs}
             o_, n_ = outs['old'], outs['new']
             if ('exc' in o_ or 'exc' in n_):
                 if o_.get('exc') != n_.get('exc'):
@@ -1482,6 +1942,19 @@ def kw_worker(payload):
                 entry['diffs'].append(['result', _short(o_['result']), _short(n_['result'])])
             if o_['state'] != n_['state']:
                 entry['diffs'].append(['receiver state', o_['state'], n_['state']])
+            if o_.get('log') != n_.get('log'):
+                entry['diffs'].append(['records written to the log', _short(o_.get('log')), _short(n_.get('log'))])
+            if o_.get('printed') != n_.get('printed'):
+                entry['diffs'].append(['text printed on stdout / stderr', _short(o_.get('printed')), _short(n_.get('printed'))])
+            if o_.get('globals') != n_.get('globals') or o_.get('files') != n_.get('files'):
+                again = pair()  # counted only if it is there again when the pair is repeated (caches filled by the first side)
+                if 'poisoned_side' in again:
+                    side = again.pop('poisoned_side')
+                    return {'results': out, 'poisoned_at': idx, 'poisoned_side': side, 'outs': again}
+                if o_.get('globals') != n_.get('globals') and again['old'].get('globals') != again['new'].get('globals'):
+                    entry['diffs'].append([GLOBAL_DIFF, _short([x for x in o_['globals'] if x not in n_['globals']]), _short([x for x in n_['globals'] if x not in o_['globals']])])
+                if o_.get('files') != n_.get('files') and again['old'].get('files') != again['new'].get('files'):
+                    entry['diffs'].append([FILES_DIFF, _short(o_.get('files')), _short(n_.get('files'))])
             added = list(o_['dep'])
             for m in n_['dep']:
                 if m in added:
@@ -1530,8 +2003,46 @@ def gen_hierarchy(rng):
     return {'classes': classes, 'calls': calls}
 
 
+def chain_cases():
+    """structured hierarchies (run first, every time): linear chains of depth 3..5 with the alias declared at the root or one level
+    below (capturing the replacement of the class that declares it), EVERY subset of the lower levels redefining the replacement
+    (intermediate level only, leaf only, both, none) and every level from the declaring class down as receiver; diamonds"""
+    out = []
+    for depth in (3, 4, 5):
+        for alias_at in (0, 1):
+            lower = list(range(alias_at + 1, depth))
+            for mask in range(2 ** len(lower)):
+                over = {lower[i] for i in range(len(lower)) if mask >> i & 1}
+                classes = [{'bases': [] if i == 0 else [i - 1], 'new': i == 0 or i == alias_at or i in over,
+                            'alias': {'captures': 'own', 'static': False, 'base': 0} if i == alias_at else None} for i in range(depth)]
+                calls = [{'cls': r, 'args': [r], 'kwargs': {'p': depth}, 'via': 'instance' if (r + mask) % 3 else 'class_with_receiver'}
+                         for r in range(alias_at, depth)]
+                out.append({'classes': classes, 'calls': calls, 'shape': 'chain'})
+    own = {'captures': 'own', 'static': False, 'base': 0}
+    for order in ([1, 2], [2, 1]):
+        for mid_new in ((True, False), (False, True), (True, True)):
+            classes = [{'bases': [], 'new': True, 'alias': own}, {'bases': [0], 'new': mid_new[0], 'alias': None}, {'bases': [0], 'new': mid_new[1], 'alias': None},
+                       {'bases': order, 'new': False, 'alias': None}, {'bases': [3], 'new': False, 'alias': None}]
+            out.append({'classes': classes, 'calls': [{'cls': r, 'args': [], 'kwargs': {'q': r}, 'via': 'instance'} for r in (1, 2, 3, 4)], 'shape': 'diamond'})
+    return out
+
+
+def override_kind(case, call):
+    """where the replacement is redefined, seen from the receiver of the call: 'none', 'leaf' (the receiver's own class),
+    'intermediate' (a class strictly between the receiver's class and the class declaring the alias), 'both'"""
+    if case.get('shape') != 'chain':
+        return 'n/a'
+    at = next(i for i, c in enumerate(case['classes']) if c['alias'])
+    r = call['cls']
+    leaf = r > at and case['classes'][r]['new']
+    mid = any(case['classes'][i]['new'] for i in range(at + 1, r))
+    return 'both' if leaf and mid else 'leaf' if leaf else 'intermediate' if mid else 'none'
+
+
 def build_hierarchy(case):
-    """real classes with the real decorator; returns (classes, impl ids, model table) or None when python refuses the bases"""
+    """real classes with the real decorator; returns (classes, impl ids, model table, captured function per declaring class) or None
+    when python refuses the bases.  What each alias captures is recorded HERE, when the decorator is applied - never read back from
+    the wrapper, whose internals are what is being checked."""
     from biogeme.deprecated import deprecated
 
     impl = {}
@@ -1546,15 +2057,16 @@ def build_hierarchy(case):
 
     mod_fn = mk('module.get_thing')
     built = []
+    captured_by = {}
     for i, c in enumerate(case['classes']):
         ns = {}
         if c['new']:
             ns['get_thing'] = mk(f'K{i}.get_thing')
         a = c['alias']
         if a:
-            if a['captures'] == 'own':
+            if a['captures'] == 'own' and 'get_thing' in ns:
                 target = ns['get_thing']
-            elif a['captures'] == 'rebound':
+            elif a['captures'] == 'rebound' and 'get_thing' in ns:
                 target = ns['get_thing']
                 ns['get_thing'] = mk(f'K{i}.get_thing(rebound)')
             elif a['captures'] == 'base':
@@ -1575,6 +2087,7 @@ def build_hierarchy(case):
             stub.__name__ = 'getThing'
             w = deprecated(target)(stub)
             ns['getThing'] = staticmethod(w) if a['static'] else w
+            captured_by[i] = target
         try:
             built.append(type(f'K{i}', tuple(built[b] for b in c['bases']), ns))
         except TypeError:
@@ -1589,95 +2102,281 @@ def build_hierarchy(case):
         if 'getThing' in vars(k):
             d.append([2, 1000 + ids[k]])
         table.append({'id': ids[k], 'mro': [ids[x] for x in k.__mro__ if x is not object], 'dict': d})
-    return built, impl, table
+    return built, impl, table, captured_by
+
+
+ALIAS_MSG = 'getThing is deprecated; use get_thing instead.'
+
+
+def _filters_now():
+    import warnings as w
+
+    return [[a, getattr(m, 'pattern', m), getattr(c, '__name__', str(c)), getattr(mod, 'pattern', mod), ln] for a, m, c, mod, ln in w.filters]
+
+
+def hierarchy_calls(case, b, res=None):
+    """the calls of one generated hierarchy on the real wrapper: list of observations (no Lean involved)"""
+    import warnings as w
+
+    built, impl, table, captured_by = b
+    by_tag = {v[2]: v[0] for v in impl.values()}
+    ids = {k: i for i, k in enumerate(built)}
+    obs = []
+    global_state(light=True)  # first use imports numpy, which installs warning filters of its own: not to be charged to a call
+    for call in case['calls']:
+        cls = built[call['cls']]
+        owner = next((k for k in cls.__mro__ if 'getThing' in vars(k)), None)
+        if owner is None:
+            if res is not None:
+                res.tally('class_without_alias')
+            continue
+        static = isinstance(vars(owner)['getThing'], staticmethod)
+        target = captured_by[ids[owner]]
+        captured = impl[id(target)][0]
+        inst = cls()
+        args, kwargs = tuple(call['args']), dict(call['kwargs'])
+        via = call['via']
+
+        def run(name):
+            with w.catch_warnings(record=True) as rec:
+                w.simplefilter('always')
+                f0, g0 = _filters_now(), global_state(light=True)
+                try:
+                    if via == 'instance':
+                        r = getattr(inst, name)(*args, **kwargs)
+                    elif via == 'class_with_receiver':
+                        r = getattr(cls, name)(inst, *args, **kwargs)
+                    else:
+                        r = getattr(cls, name)(**kwargs)
+                    out = {'impl': by_tag[r[0]], 'args': [('<recv>' if x is inst else x) for x in r[1]], 'kwargs': r[2]}
+                except Exception as e:  # noqa: BLE001
+                    out = {'exc': core.exc_kind(e)}
+                out['filters_changed'] = None if _filters_now() == f0 else [f0[:3], _filters_now()[:3]]
+                out['globals'] = state_delta(g0, global_state(light=True))
+            out['dep'] = [str(x.message) for x in rec if issubclass(x.category, DeprecationWarning)]
+            return out
+
+        o_old = run('getThing')
+        o_new = run('get_thing')
+        # what the wrapper sees as args[0]
+        if static:
+            first = args[0] if (via == 'instance' and args) else (inst if via == 'class_with_receiver' else None)
+        else:
+            first = inst if via != 'class_no_args' else None
+        with_recv = first is not None and isinstance(first, tuple(built))
+        # the alias is declared soundly for this receiver: what it captured is the replacement held by a class of the receiver's mro
+        sound = any(vars(k).get('get_thing') is target for k in type(inst).__mro__)
+        obs.append({'call': call, 'old': o_old, 'new': o_new, 'with_recv': with_recv, 'static': static, 'captured': captured, 'sound': sound,
+                    'override': override_kind(case, call)})
+    return obs
+
+
+class _Capped:
+    """at most two reported violations per kind from the generated streams: the slots of the real package must stay visible among
+    the first replays written"""
+
+    def __init__(self, res):
+        self.res, self.seen = res, {}
+        self.violations = res.violations
+
+    def violate(self, what, *a, **k):
+        key = what.split('(')[0][:60]
+        self.seen[key] = self.seen.get(key, 0) + 1
+        if self.seen[key] <= 2:
+            self.res.violate(what, *a, **k)
+        else:
+            self.res.tally('further_violations_of_the_same_kind_not_listed')
+
+
+def judge_hierarchy_call(res, case, o):
+    """the property on one call of a generated hierarchy, from the statement alone (no model): same function, same arguments, one
+    warning naming the replacement, nothing else left behind"""
+    what = {'hierarchy': {k: v for k, v in case.items() if k != 'shape'}, 'call': o['call']}
+    o_old, o_new = o['old'], o['new']
+    W = 'deprecated.deprecated wrapper'
+    if 'exc' in o_old:
+        if o['with_recv'] and not o['static'] and o['sound'] and 'exc' not in o_new:
+            res.violate('an inherited alias raises where the new name, called on the same receiver, returns (generated class hierarchy)', what,
+                        o_old, {k: o_new.get(k) for k in ('impl', 'args', 'kwargs')}, where=W)
+        return
+    if o['with_recv'] and not o['static'] and o['sound']:
+        if 'exc' in o_new or o_old['impl'] != o_new['impl'] or o_old['args'] != o_new['args'] or o_old['kwargs'] != o_new['kwargs']:
+            res.violate('an inherited alias does not behave like the new name on the receiver (generated class hierarchy; replacement redefined at: '
+                        + o['override'] + ')', what,
+                        {k: o_old.get(k) for k in ('impl', 'args', 'kwargs')}, {k: o_new.get(k) for k in ('impl', 'args', 'kwargs', 'exc')}, where=W)
+    if not o['static'] and o['with_recv'] and (o_old['kwargs'] != o['call']['kwargs'] or [x for x in o_old['args'] if x != '<recv>'] != o['call']['args']):
+        res.violate('the wrapper does not pass the arguments on unchanged', what, {'args': o_old['args'], 'kwargs': o_old['kwargs']},
+                    {'args': o['call']['args'], 'kwargs': o['call']['kwargs']}, where=W)
+    if o_old['dep'] != [ALIAS_MSG]:
+        res.violate('the wrapper does not add exactly one DeprecationWarning naming the replacement', what, o_old['dep'], [ALIAS_MSG], where=W)
+    if o_old['filters_changed'] or o_old['globals'] != o_new['globals']:
+        res.violate('calling the old name leaves process-wide state changed (warnings.filters / logging / random generators ...): it must add nothing but the warning',
+                    what, {'warnings.filters before/after': o_old['filters_changed'], 'other': o_old['globals']}, {'warnings.filters': 'unchanged', 'other': o_new['globals']},
+                    where=W)
 
 
 def check_wrapper_model(ctx, res, n):
-    import warnings as w
-
     rng = ctx.rng
     reqs, obs = [], []
     done = 0
-    while done < n:
-        case = gen_hierarchy(rng)
+    capped = _Capped(res)
+    stream = chain_cases()
+    while done < n or stream:
+        case = stream.pop(0) if stream else gen_hierarchy(rng)
         b = build_hierarchy(case)
         if b is None:
             res.tally('hierarchy_refused_by_python')
             continue
         done += 1
-        built, impl, table = b
-        by_tag = {v[2]: v[0] for v in impl.values()}
+        table = b[2]
         overrides = False
-        for call in case['calls']:
-            cls = built[call['cls']]
-            try:
-                raw = inspect.getattr_static(cls, 'getThing')
-            except AttributeError:
-                res.tally('class_without_alias')
-                continue
-            static = isinstance(raw, staticmethod)
-            wrapper, cells = find_deprecated_wrapper(raw_function(raw))
-            captured = impl[id(cells['new_func'])][0]
-            inst = cls()
-            args, kwargs = tuple(call['args']), dict(call['kwargs'])
-            via = call['via']
-
-            def run(name):
-                with w.catch_warnings(record=True) as rec:
-                    w.simplefilter('always')
-                    try:
-                        if via == 'instance':
-                            r = getattr(inst, name)(*args, **kwargs)
-                        elif via == 'class_with_receiver':
-                            r = getattr(cls, name)(inst, *args, **kwargs)
-                        else:
-                            r = getattr(cls, name)(**kwargs)
-                        out = {'impl': by_tag[r[0]], 'args': [('<recv>' if x is inst else x) for x in r[1]], 'kwargs': r[2]}
-                    except Exception as e:  # noqa: BLE001
-                        out = {'exc': core.exc_kind(e)}
-                out['dep'] = [str(x.message) for x in rec if issubclass(x.category, DeprecationWarning)]
-                return out
-
-            o_old = run('getThing')
-            o_new = run('get_thing')
-            has_recv = (via != 'class_no_args') and not (static and via == 'instance' and not args) and not (static and via == 'instance')
-            # what the wrapper sees as args[0]
-            if static:
-                first = args[0] if (via == 'instance' and args) else (inst if via == 'class_with_receiver' else None)
-            else:
-                first = inst if via != 'class_no_args' else None
-            receiver_cls = None if first is None or not isinstance(first, tuple(built)) else call['cls']
-            reqs.append({'op': 'call', 'classes': table, 'c': call['cls'], 'new': 1, 'captured': captured})
-            obs.append((case, call, o_old, o_new, receiver_cls is not None, static))
-            res.tally('wrapper_call:' + via + (':static' if static else ''))
+        for o in hierarchy_calls(case, b, res):
+            call = o['call']
+            reqs.append({'op': 'call', 'classes': table, 'c': call['cls'], 'new': 1, 'captured': o['captured']})
+            obs.append((case, o))
+            res.tally('wrapper_call:' + call['via'] + (':static' if o['static'] else ''))
+            if o['override'] != 'n/a':
+                res.tally('chain_receiver_depth:' + str(call['cls'] + 1) + ':override_' + o['override'])
             if any(c['new'] for c in case['classes'][1:]):
                 overrides = True
+            judge_hierarchy_call(capped, case, o)
         res.count({'hierarchy': case}, nontrivial=overrides)
 
     def cb(ans):
-        for a, (case, call, o_old, o_new, with_recv, static) in zip(ans, obs):
-            what = {'hierarchy': case, 'call': call}
-            want_impl = a['alias'] if with_recv else a['no_receiver']
-            got = o_old.get('impl')
+        for a, (case, o) in zip(ans, obs):
+            what = {'hierarchy': {k: v for k, v in case.items() if k != 'shape'}, 'call': o['call']}
+            o_old = o['old']
+            want_impl = a['alias'] if o['with_recv'] else a['no_receiver']
+            if o['with_recv'] and not o['static'] and a['found'] != o['sound']:
+                res.diverge('the dispatch condition of the model (captured function found in the mro of the receiver)', what, a['found'], o['sound'],
+                            where='deprecated.deprecated wrapper')
             if 'exc' in o_old:
-                if want_impl is not None and with_recv:
+                if want_impl is not None and o['with_recv']:
                     res.diverge('wrapper on a generated hierarchy: the model runs an implementation, the real wrapper raises', what, a, o_old,
                                 where='deprecated.deprecated wrapper')
                 continue
-            if got != want_impl:
+            if o_old.get('impl') != want_impl:
                 res.diverge('wrapper on a generated hierarchy: implementation that runs', what, want_impl, o_old, where='deprecated.deprecated wrapper')
-            # property oracle where the dispatch condition holds: old == new, arguments unchanged, one warning
-            if with_recv and not static and a['found']:
-                if 'exc' in o_new or o_old['impl'] != o_new['impl'] or o_old['args'] != o_new['args'] or o_old['kwargs'] != o_new['kwargs']:
-                    res.violate('an inherited alias does not behave like the new name on the receiver (generated class hierarchy)', what,
-                                {k: o_old.get(k) for k in ('impl', 'args', 'kwargs')}, {k: o_new.get(k) for k in ('impl', 'args', 'kwargs', 'exc')},
-                                where='deprecated.deprecated wrapper')
-            if not static and with_recv and (o_old['kwargs'] != call['kwargs'] or [x for x in o_old['args'] if x != '<recv>'] != call['args']):
-                res.violate('the wrapper does not pass the arguments on unchanged', what, {'args': o_old['args'], 'kwargs': o_old['kwargs']},
-                            {'args': call['args'], 'kwargs': call['kwargs']}, where='deprecated.deprecated wrapper')
-            if o_old['dep'] != ['getThing is deprecated; use get_thing instead.']:
-                res.violate('the wrapper does not add exactly one DeprecationWarning naming the replacement', what, o_old['dep'],
-                            ['getThing is deprecated; use get_thing instead.'], where='deprecated.deprecated wrapper')
+
+    ctx.batch.add_many(reqs, cb)
+
+
+# --------------------------------------------------------------------------- the wrapper inside a user's warning configuration
+
+W_CATS = ['Warning', 'DeprecationWarning', 'UserWarning', 'FutureWarning', 'PendingDeprecationWarning']
+W_MSGS = ['', 'getThing', 'nothing at all', '.*deprecated']
+W_ACTIONS = ['error', 'ignore', 'always', 'default', 'module', 'once']
+
+
+def gen_filters(rng):
+    k = rng.choice([0, 1, 1, 1, 2, 2, 3])
+    return [{'action': rng.choice(W_ACTIONS), 'category': rng.choice(W_CATS), 'message': rng.choice(W_MSGS)} for _ in range(k)]
+
+
+def filter_matches(f):
+    import builtins
+
+    return issubclass(DeprecationWarning, getattr(builtins, f['category'])) and re.match(f['message'], ALIAS_MSG, re.I) is not None
+
+
+def world_case(rng):
+    case = rng.choice(chain_cases()) if rng.random() < 0.5 else gen_hierarchy(rng)
+    return {'hierarchy': {k: v for k, v in case.items() if k != 'shape'}, 'filters': gen_filters(rng), 'n': rng.choice([1, 2, 2, 3]),
+            'raise_flag': rng.random() < 0.08, 'cls': rng.randrange(len(case['classes'])), 'args': [rng.randint(0, 9) for _ in range(rng.randint(0, 2))]}
+
+
+def run_world_case(wc, b):
+    """`n` calls of the alias, then of the new name, from one place, inside the warning configuration of the case (real `warnings` module)"""
+    import builtins
+    import warnings as w
+
+    import biogeme.deprecated as dep
+
+    built, impl, table, captured_by = b
+    by_tag = {v[2]: v[0] for v in impl.values()}
+    ids = {k: i for i, k in enumerate(built)}
+    cls = built[wc['cls']]
+    owner = next((k for k in cls.__mro__ if 'getThing' in vars(k)), None)
+    if owner is None:
+        return None
+    static = isinstance(vars(owner)['getThing'], staticmethod)
+    inst = cls()
+    target = captured_by[ids[owner]]
+    out = {'static': static, 'captured': impl[id(target)][0], 'sound': (not static) and any(vars(k).get('get_thing') is target for k in cls.__mro__)}
+    for side, name in (('old', 'getThing'), ('new', 'get_thing')):
+        flag0 = dep.RAISE_EXCEPTION
+        with w.catch_warnings(record=True) as rec:
+            w.resetwarnings()
+            w.onceregistry.clear()
+            for f in reversed(wc['filters']):
+                w.filterwarnings(f['action'], message=f['message'], category=getattr(builtins, f['category']))
+            f0 = _filters_now()
+            calls = []
+            try:
+                if wc['raise_flag']:
+                    dep.RAISE_EXCEPTION = True
+                for _ in range(wc['n']):  # one place: same file, same line for every call
+                    try:
+                        r = getattr(inst, name)(*wc['args'])
+                        calls.append({'impl': by_tag[r[0]], 'raised': None})
+                    except Exception as e:  # noqa: BLE001
+                        calls.append({'impl': None, 'raised': type(e).__name__})
+            finally:
+                dep.RAISE_EXCEPTION = flag0
+            f1 = _filters_now()
+            out[side] = {'calls': calls, 'shown': len(rec), 'messages': sorted({str(x.message) for x in rec}), 'filters_unchanged': f0 == f1,
+                         'filters': [f0, f1] if f0 != f1 else None}
+    return out
+
+
+def check_world_model(ctx, res, n):
+    """the state-transformer model of the wrapper (Model/DeprecWorld.lean) against the real wrapper inside generated warning configurations"""
+    rng = ctx.rng
+    reqs, obs = [], []
+    done = 0
+    capped = _Capped(res)
+    while done < n:
+        wc = world_case(rng)
+        b = build_hierarchy(wc['hierarchy'])
+        if b is None:
+            continue
+        o = run_world_case(wc, b)
+        if o is None:
+            continue
+        done += 1
+        fl = [[f['action'], filter_matches(f)] for f in wc['filters']]
+        first = next((f[0] for f in fl if f[1]), 'default')
+        res.count({'world': wc}, nontrivial=bool(wc['filters']))
+        res.tally('warning_configuration:first_matching_action=' + first + (':RAISE_EXCEPTION' if wc['raise_flag'] else ''))
+        base = {'op': 'world', 'classes': b[2], 'c': wc['cls'], 'new': 1, 'captured': o['captured'], 'filters': fl, 'default': 'default', 'registry': [],
+                'n': wc['n'], 'receiver': not o['static'], 'raise_flag': wc['raise_flag']}
+        reqs.append({**base, 'side': 'old'})
+        obs.append((wc, o, 'old'))
+        reqs.append({**base, 'side': 'new'})
+        obs.append((wc, o, 'new'))
+        # the property, from its statement: nothing but the warning - the user's configuration is left as it was and is obeyed
+        W = 'deprecated.deprecated wrapper'
+        if not o['old']['filters_unchanged']:
+            capped.violate('calling the old name changes warnings.filters (the user\'s warning configuration): it must add nothing but the warning', {'world': wc},
+                        o['old']['filters'], 'warnings.filters as before the call', where=W)
+        if wc['filters'] and fl[0][1] and not wc['raise_flag']:
+            if fl[0][0] == 'ignore' and (o['old']['shown'] != 0 or (o['sound'] and o['old']['calls'] != o['new']['calls'])):
+                capped.violate('DeprecationWarning is silenced by the user: the old name must be exactly the new name, silently', {'world': wc}, o['old'], o['new'], where=W)
+            if fl[0][0] == 'error' and any(c['raised'] != 'DeprecationWarning' for c in o['old']['calls']):
+                capped.violate('DeprecationWarning is turned into an error by the user: the old name must raise it', {'world': wc}, o['old']['calls'],
+                            'DeprecationWarning raised by every call', where=W)
+            if fl[0][0] == 'always' and not o['static'] and (o['old']['shown'] != wc['n'] or o['old']['messages'] != [ALIAS_MSG]):
+                capped.violate('the old name must emit exactly one DeprecationWarning naming the replacement at every call', {'world': wc},
+                            [o['old']['shown'], o['old']['messages']], [wc['n'], [ALIAS_MSG]], where=W)
+
+    def cb(ans):
+        for a, (wc, o, side) in zip(ans, obs):
+            real = o[side]
+            got = {'calls': real['calls'], 'shown': real['shown'], 'filters_unchanged': real['filters_unchanged']}
+            want = {'calls': a.get('calls'), 'shown': a.get('shown'), 'filters_unchanged': a.get('filters_unchanged')}
+            if got != want:
+                res.diverge(f'the wrapper as a state transformer ({side} name, {wc["n"]} calls inside a warning configuration)', {'world': wc}, want, got,
+                            where='deprecated.deprecated wrapper')
 
     ctx.batch.add_many(reqs, cb)
 
@@ -1687,7 +2386,8 @@ def check_kw_model(ctx, res, n):
     from biogeme.deprecated import deprecated_parameters
 
     rng = ctx.rng
-    reqs, obs = [], []
+    capped = _Capped(res)
+    reqs, obs, reqs2, obs2 = [], [], [], []
     names = ['alpha', 'beta', 'gammaValue', 'gamma_value', 'deltaT', 'delta_t', 'eps', 'oldOnly', 'zeta']
     nid = {n: i for i, n in enumerate(names)}
     for _ in range(n):
@@ -1717,16 +2417,48 @@ def check_kw_model(ctx, res, n):
         if clean:
             want = [[nid[mp[k]] if k in mp else nid[k], v] for k, v in kw if not (k in mp and mp[k] is None)]
             if [[nid[k], v] for k, v in got] != want or nw != sum(k in mp for k, _ in kw):
-                res.violate('an obsolete keyword does not reach the function under its new name (or the number of warnings is wrong)',
+                capped.violate('an obsolete keyword does not reach the function under its new name (or the number of warnings is wrong)',
                             {'map': mp, 'kwargs': kw}, {'received': got, 'warnings': nw}, {'received': want, 'warnings': sum(k in mp for k, _ in kw)},
                             where='deprecated.deprecated_parameters wrapper')
+
+        # the same call inside a user's warning configuration (state-transformer model `runKw`)
+        import builtins
+
+        fl = [{'action': rng.choice(W_ACTIONS), 'category': rng.choice(W_CATS), 'message': ''} for _ in range(rng.choice([0, 1, 1, 2]))]
+        with w.catch_warnings(record=True) as rec:
+            w.resetwarnings()
+            w.onceregistry.clear()
+            for f_ in reversed(fl):
+                w.filterwarnings(f_['action'], category=getattr(builtins, f_['category']))
+            f0 = _filters_now()
+            try:
+                got2, raised = [[nid[k], v] for k, v in g(**dict(kw))], None
+            except Warning as e:  # a warning turned into an exception by an `error` entry
+                m_ = re.match(r"Parameter '(\w+)'", str(e))
+                got2, raised = None, (nid.get(m_.group(1)) if m_ else -1) if isinstance(e, DeprecationWarning) else 'raises ' + type(e).__name__
+            unchanged = _filters_now() == f0
+            shown = [nid.get((re.match(r"Parameter '(\w+)'", str(x.message)) or [None, '?'])[1], -1) for x in rec]
+        if not unchanged:
+            capped.violate("using an obsolete keyword changes warnings.filters (the user's warning configuration): it must add nothing but the warning",
+                        {'map': mp, 'kwargs': kw, 'filters': fl}, _filters_now()[:3], f0[:3], where='deprecated.deprecated_parameters wrapper')
+        reqs2.append({'op': 'kwworld', 'map': [[nid[o], None if t is None else nid[t]] for o, t in mp.items()], 'kw': [[nid[k], v] for k, v in kw],
+                      'filters': [[f_['action'], issubclass(DeprecationWarning, getattr(builtins, f_['category']))] for f_ in fl], 'default': 'default'})
+        obs2.append((mp, kw, fl, {'kw': got2, 'raised': raised, 'shown': shown, 'filters_unchanged': unchanged}))
+        res.tally('kw_wrapper_call_in_warning_configuration')
 
     def cb(ans):
         for a, (mp, kw, got, nw) in zip(ans, obs):
             if a.get('kw') != got or a.get('warnings') != nw:
                 res.diverge('keyword renaming wrapper', {'map': mp, 'kwargs': kw}, a, {'kw': got, 'warnings': nw}, where='deprecated.deprecated_parameters wrapper')
 
+    def cb2(ans):
+        for a, (mp, kw, fl, real) in zip(ans, obs2):
+            if {k: a.get(k) for k in real} != real:
+                res.diverge('keyword renaming wrapper as a state transformer (inside a warning configuration)', {'map': mp, 'kwargs': kw, 'filters': fl}, a, real,
+                            where='deprecated.deprecated_parameters wrapper')
+
     ctx.batch.add_many(reqs, cb)
+    ctx.batch.add_many(reqs2, cb2)
 
 
 # --------------------------------------------------------------------------- check
@@ -1741,7 +2473,7 @@ def run_side_isolated(at, side, seed):
     return out
 
 
-def run_workers(ctx, res, T, seed, only=None):
+def run_workers(ctx, res, T, seed, only=None, twice_all=False):
     """all slots (or the slot `only`) in worker processes; returns (slot list, merged results per slot)"""
     import tempfile
 
@@ -1754,6 +2486,11 @@ def run_workers(ctx, res, T, seed, only=None):
         m['both_raise'] += e['both_raise']
         m['mismatch'] += e['mismatch']
         m['skipped'] = m['skipped'] or e['skipped']
+        if e.get('second_calls'):
+            m['second_calls'] = m.get('second_calls', 0) + e['second_calls']
+        if e.get('repeated'):
+            m['repeated'] = m.get('repeated', 0) + e['repeated']
+            m['repeated_for'] = e.get('repeated_for')
         if e.get('setup_failed'):
             m['setup_failed'] = m.get('setup_failed', 0) + e['setup_failed']
             m['setup_error'] = e.get('setup_error')
@@ -1764,7 +2501,7 @@ def run_workers(ctx, res, T, seed, only=None):
             break
         with tempfile.NamedTemporaryFile('w', suffix='.jsonl', delete=False) as tf:
             prog = tf.name
-        out = core.run_isolated('props.c20', 'worker', {'start': start, 'seed': seed, 'skip_to': skip_to, 'progress': prog, 'only': only}, timeout=1500)
+        out = core.run_isolated('props.c20', 'worker', {'start': start, 'seed': seed, 'skip_to': skip_to, 'progress': prog, 'only': only, 'twice_all': twice_all or only is not None}, timeout=1500)
         lines = [json.loads(l) for l in Path(prog).read_text().splitlines() if l.strip()]
         os.unlink(prog)
         about, finished, poisoned = None, None, None
@@ -1812,8 +2549,14 @@ def check(ctx) -> Result:
     res = Result(rule=RULE, tolerance='exact after canonicalisation (same code path on both sides)')
     T = getattr(ctx, 'table', None) or gather()
     # (C2) the wrapper model on generated hierarchies
-    check_wrapper_model(ctx, res, ctx.n(300, 6000))
-    check_kw_model(ctx, res, ctx.n(200, 4000))
+    for stream, n_ in ((check_wrapper_model, ctx.n(300, 6000)), (check_world_model, ctx.n(250, 5000)), (check_kw_model, ctx.n(200, 4000))):
+        try:
+            stream(ctx, res, n_)
+        except Exception:  # noqa: BLE001  (a wrapper behaving outside what the stream expects: reported, the other streams still run)
+            import traceback
+
+            res.diverge(f'{stream.__name__}: the real decorator behaves outside what the model-correspondence stream expects', None, 'no exception',
+                        traceback.format_exc()[-1200:], where='deprecated.py decorators')
     # (C1) every slot
     S, merged = run_workers(ctx, res, T, ctx.seed)
     covered = 0
@@ -1833,6 +2576,10 @@ def check(ctx) -> Result:
             else:
                 uncovered.append((s['cls'], s['old'], m['skipped']))
             continue
+        if m.get('second_calls'):
+            res.tally('slot_calls_followed_by_a_second_call_on_the_same_receiver', m['second_calls'])
+        if m.get('repeated'):
+            res.tally('slot_calls_repeated_to_confirm_a_difference_in_process_state_or_files', m['repeated'])
         if m.get('setup_failed'):
             res.tally('calls_whose_receiver_or_arguments_cannot_be_built', m['setup_failed'])
         if m['calls'] == 0:
@@ -1884,9 +2631,25 @@ def check(ctx) -> Result:
                         where=f'obsolete keyword of {e["owner"].split(".")[-1]}.{e["func"]}')
     missing_kw = [(u['owner_name'], u['func'], o) for u in T['kwuses'] for o in u['map'] if (u['owner_name'], u['func'], o) not in seen_kw]
     res.extra_obligations.append({'name': 'correspondence.every_obsolete_keyword_used', 'ok': not missing_kw, 'why': f'not exercised: {missing_kw[:5]}'})
+    # old names kept by hand (properties, undecorated functions), found by their spelling on live receivers
+    hw = core.run_isolated('props.c20', 'handwritten_worker', {'seed': ctx.seed}, timeout=900)
+    if '__error__' in hw:
+        res.violate(f'the interpreter reading the old names kept by hand died ({hw["__error__"]})', {'stderr': hw.get('stderr', '')[-400:]}, hw['__error__'],
+                    'every old property can be read and written', where='hand-written alias: worker')
+    for e in hw.get('results', []):
+        case = {'class': e['class'], 'old': e['old'], 'new_by_spelling': e['new'], 'kind': e['kind'], 'receiver': e['receiver']}
+        res.count(case, nontrivial=True)
+        res.tally('hand_written_old_names:' + e['kind'] + (':silent(read only compared)' if e.get('silent') else ''), 1)
+        res.tally('hand_written_old_name_calls', e['calls'])
+        for d in e['diffs'][:2]:
+            res.violate(f'{e["class"].split(".")[-1]}.{e["old"]} ({e["kind"]} kept by hand) does not behave like {e["new"]}: {d[0]}', case, d[1], d[2],
+                        where=f'hand-written alias {e["class"].split(".")[-1]}.{e["old"]}')
+    not_called = [(e['class'], e['old'], e['uncovered']) for e in hw.get('results', []) if e.get('uncovered')]
+    res.extra_obligations.append({'name': 'correspondence.every_hand_written_old_name_exercised', 'ok': not not_called and '__error__' not in hw,
+                                  'why': f'not exercised: {not_called[:5]}'})
     if ctx.tier == 'thorough':
         # a second full pass with another seed (random draws, random initial values)
-        S2, merged2 = run_workers(ctx, res, T, ctx.seed + 1000)
+        S2, merged2 = run_workers(ctx, res, T, ctx.seed + 1000, twice_all=True)
         for i, s in enumerate(S2):
             for mm in (merged2.get(i) or {}).get('mismatch', [])[:1]:
                 where = W_STATIC if s['old'] == 'descriptionOfNativeDraws' else f'alias {s["owner"].split(".")[-1]}.{s["old"]}'
@@ -1895,15 +2658,43 @@ def check(ctx) -> Result:
                             [d[1] for d in mm['diffs']], [d[2] for d in mm['diffs']], where=where)
             res.tally('slot_calls', (merged2.get(i) or {}).get('calls', 0))
     ctx.batch.flush()
+    # one violation of every call site first (only the first few replays are written): round-robin over `where`
+    groups = {}
+    for v in res.violations:
+        wh = str(v.get('where'))
+        groups.setdefault(wh if wh.startswith('deprecated.') else ' '.join(wh.split(' ')[:1]), []).append(v)
+    order = sorted(groups, key=lambda k: k.startswith('deprecated.'))  # slots of the real package before the generated hierarchies
+    res.violations = [groups[k][j] for j in range(max((len(g) for g in groups.values()), default=0)) for k in order if j < len(groups[k])]
     return res
 
 
 def search(ctx, res, broken):
     """an obligation broke without a concrete failing call: name the offending table entries and call them"""
     T = getattr(ctx, 'table', None) or gather()
+    # 1. the property oracle on the real wrapper, on every structured hierarchy (no model, no table involved)
+    capped = _Capped(res)
+    for case in chain_cases() + [gen_hierarchy(ctx.rng) for _ in range(400)]:
+        b = build_hierarchy(case)
+        if b is not None:
+            for o in hierarchy_calls(case, b):
+                judge_hierarchy_call(capped, case, o)
+    # 2. the slots of the aliases the table obligations refuse: called again, old name against the replacement its spelling designates
+    S = None
     for a in T['aliases']:
         if not py_alias_ok(T, a) and (a['owner_name'], a['old']) not in known_bad_slots(ctx.findings):
             res.notes.append(f'table condition fails for {a["owner_name"]}.{a["old"]} -> {a["new"]}')
+            S = S or slot_list(T)
+            tried = 0
+            for idx, sl in enumerate(S):
+                if sl['owner'] == a['owner_name'] and sl['old'] == a['old'] and sl['receivers'] and tried < 4:
+                    tried += 1
+                    _, merged = run_workers(ctx, res, T, ctx.seed, only=idx)
+                    for mm in (merged.get(idx) or {}).get('mismatch', [])[:1]:
+                        res.violate(f'{sl["cls"].split(".")[-1]}.{sl["old"]}(...) does not behave like {sl["want"]}(...): ' + '; '.join(d[0] for d in mm['diffs']),
+                                    {'class': sl['cls'], 'old': sl['old'], 'new_by_spelling': sl['want'], 'declared_new': sl['declared_new'], 'receiver': mm['receiver'],
+                                     'arguments': mm['spec']}, [d[1] for d in mm['diffs']], [d[2] for d in mm['diffs']], where=f'alias {sl["owner"].split(".")[-1]}.{sl["old"]}')
+            if len(res.violations) >= 5:
+                return
         legacy = (a['old'] != a['new'] and norm_name(a['old']) == norm_name(a['new'])) or (a['old'], a['new']) in EXCEPTIONS
         if not legacy:
             res.violate(f'{a["owner_name"]}.{a["old"]} points users to {a["new"]!r}, which is not the function its name designates',
@@ -1936,28 +2727,31 @@ def replay(ctx, obj):
         entry = merged.get(idx)
         fails = bool(entry and entry['mismatch']) or S[idx]['declared_new'] != S[idx]['want'] or bool(r2.violations)
         out.update({'property_fails': fails, 'observed': entry})
+    elif 'world' in case:
+        wc = case['world']
+        b = build_hierarchy(wc['hierarchy'])
+        o = run_world_case(wc, b) if b is not None else None
+        if o is None:
+            out.update({'property_fails': False, 'note': 'hierarchy refused by python / class without alias'})
+            return out
+        r = Result()
+        fl = [[f['action'], filter_matches(f)] for f in wc['filters']]
+        fails = not o['old']['filters_unchanged']
+        if wc['filters'] and fl[0][1] and not wc['raise_flag']:
+            fails = fails or (fl[0][0] == 'ignore' and (o['old']['shown'] != 0 or (o['sound'] and o['old']['calls'] != o['new']['calls']))) \
+                or (fl[0][0] == 'error' and any(c['raised'] != 'DeprecationWarning' for c in o['old']['calls'])) \
+                or (fl[0][0] == 'always' and not o['static'] and (o['old']['shown'] != wc['n'] or o['old']['messages'] != [ALIAS_MSG]))
+        out.update({'property_fails': bool(fails), 'observed': o['old'], 'expected': o['new']})
     elif 'hierarchy' in case:
         r = Result()
         b = build_hierarchy(case['hierarchy'])
         if b is None:
             out.update({'property_fails': False, 'note': 'hierarchy refused by python'})
             return out
-        built, impl, table = b
-        call = case['call']
-        cls = built[call['cls']]
-        inst = cls()
-        import warnings as w
-
-        with w.catch_warnings(record=True):
-            w.simplefilter('always')
-            try:
-                a = inst.getThing(*call['args'], **call['kwargs'])
-                bnew = inst.get_thing(*call['args'], **call['kwargs'])
-                fails = a[0] != bnew[0] or a[2] != bnew[2] or a[1][1:] != bnew[1][1:]
-            except Exception as e:  # noqa: BLE001
-                fails = True
-                a = bnew = str(e)
-        out.update({'property_fails': fails, 'observed': str(a), 'expected': str(bnew)})
+        one = {**case['hierarchy'], 'calls': [case['call']]}
+        for o in hierarchy_calls(one, b):
+            judge_hierarchy_call(r, one, o)
+        out.update({'property_fails': bool(r.violations), 'observed': [v.get('observed') for v in r.violations][:2], 'expected': [v.get('expected') for v in r.violations][:2]})
     elif 'function' in case:
         r = core.run_isolated('props.c20', 'kw_worker', {'start': 0, 'seed': 0}, timeout=900)
         bad = [e for e in r.get('results', []) if e['func'] == case['function'] and e['diffs']]
